@@ -644,7 +644,7 @@ def h_fold(vf, node, fn, args):
     c = vf.deref(args[2])
     if not isinstance(c, Clos):
         return vf.default_call('fold', args, node, fn)
-    acc = Place(('tmp', vf.fresh('acc')), ())
+    acc = Place(('acc', vf.fresh('acc')), ())
     vf.store[(acc.root, ())] = init if not isinstance(init, Ref) else vf.read(init.place)
     zipn = getattr(s, 'zip_arity', None)
 
